@@ -5,7 +5,10 @@ mod hx;
 mod sc;
 mod util;
 
+mod c01;
+mod c02;
 mod c09;
+mod tree;
 mod c14;
 mod c15;
 mod c16;
@@ -29,6 +32,8 @@ impl Scenario {
 
 fn scenarios(prop: &str, tier: &str) -> Vec<Scenario> {
     match prop {
+        "C01" => c01::scenarios(tier),
+        "C02" => c02::scenarios(tier),
         "C09" => c09::scenarios(tier),
         "C14" => c14::scenarios(tier),
         "C15" => c15::scenarios(tier),
